@@ -41,6 +41,10 @@ def run_ipm_tool(tool, data, a, b, fi, fo, wd, tag):
         return out.getvalue()
     path = os.path.join(wd, 'conv-%d-%s.ipm' % (os.getpid(), tag))
     drv.spit(path, data)
+    if len(data) % 2 == 0:
+        # yesterday's (longer) output is still there under the same name: the new output replaces it
+        for suffix in ('.o', '.out'):
+            drv.spit(path + suffix, b'\x5a' * (len(data) + 9126))
     try:
         if tool == 'mci_ipm_encode.cli':
             if fi == fo == 'vbs' and len(data) % 2:
@@ -214,6 +218,8 @@ def _drive_param(args):
                 return o.getvalue()
             path = os.path.join(wd, 'pconv-%d-%s.bin' % (os.getpid(), tag))
             drv.spit(path, data)
+            if len(data) % 2 == 0:
+                drv.spit(path + '.o', b'\x5a' * (len(data) + 5000))          # a longer file of that name exists already
             try:
                 if tool == 'mci_ipm_param_encode.cli':
                     quiet(mci_ipm_param_encode.cli_run, in_filename=path, out_filename=path + '.o', in_encoding=x, out_encoding=y,
